@@ -26,7 +26,7 @@ fn family_for(prop: &str) -> &'static dyn Family {
 }
 
 fn all_families() -> Vec<&'static dyn Family> {
-    vec![&scen::factor::FactorFamily, &scen::relstore::RelstoreFamily, &scen::lattice::LatticeFamily, &scen::lanczos::LanczosFamily, &scen::clsgrp::ClsgrpFamily, &scen::clsabort::ClsAbortFamily, &scen::multicaller::MultiCallerFamily]
+    vec![&scen::factor::FactorFamily, &scen::relstore::RelstoreFamily, &scen::lattice::LatticeFamily, &scen::lanczos::LanczosFamily, &scen::clsgrp::ClsgrpFamily, &scen::clsabort::ClsAbortFamily, &scen::multicaller::MultiCallerFamily, &scen::clsthreads::ClsThreadsFamily]
 }
 
 fn arg_val(args: &[String], name: &str) -> Option<String> {
